@@ -164,4 +164,36 @@ theorem regenerated_cot_triangle_identity (p0 p1 p2 : V2 ℝ)
 example : 0 < V2.cross (V2.sub (⟨1, 0⟩ : V2 ℝ) ⟨0, 0⟩) (V2.sub (⟨0, 1⟩ : V2 ℝ) ⟨0, 0⟩) := by
   simp [V2.cross, V2.sub]
 
+/-! ### `invert_2x2` (the 2×2 solve inside `best_fit_curve`), from its regenerated determinant and entries.
+The translator's pattern pins the singularity test to the EXACT comparison `det == 0.0`: with a tolerance in its
+place the translation fails and the check reports it. -/
+
+/-- the four entries the code writes, for a matrix with non-zero determinant, are the inverse: `M · R = 1` -/
+theorem invert_2x2_is_inverse (a b c d : ℝ) (h : GenRs.inv2_det a b c d ≠ 0) :
+    let k := GenRs.inv2_inv_det (GenRs.inv2_det a b c d)
+    let (r00, r01, r10, r11) := (GenRs.inv2_r00 a b c d k, GenRs.inv2_r01 a b c d k, GenRs.inv2_r10 a b c d k, GenRs.inv2_r11 a b c d k)
+    a * r00 + b * r10 = 1 ∧ a * r01 + b * r11 = 0 ∧ c * r00 + d * r10 = 0 ∧ c * r01 + d * r11 = 1 := by
+  simp only [GenRs.inv2_det, GenRs.inv2_inv_det, GenRs.inv2_r00, GenRs.inv2_r01, GenRs.inv2_r10, GenRs.inv2_r11] at *
+  have h' : a * d - b * c ≠ 0 := h
+  refine ⟨?_, ?_, ?_, ?_⟩
+  · field_simp; ring
+  · field_simp; ring
+  · field_simp; ring
+  · have : c * (-b * (1 / (a * d - b * c))) + d * (a * (1 / (a * d - b * c))) = (a * d - b * c) * (1 / (a * d - b * c)) := by ring
+    rw [this]; field_simp
+
+/-- **Nothing in it depends on the size of the mesh.**  Scaling the matrix by any `s ≠ 0` (the entries are sums of
+    squared edge lengths: a part a thousand times smaller scales them by 1e-6) scales the determinant by `s²` — never to
+    zero — and the result by `1/s`. -/
+theorem invert_2x2_scale (a b c d s : ℝ) (hs : s ≠ 0) (h : GenRs.inv2_det a b c d ≠ 0) :
+    GenRs.inv2_det (s * a) (s * b) (s * c) (s * d) ≠ 0 ∧
+    GenRs.inv2_r00 (s * a) (s * b) (s * c) (s * d) (GenRs.inv2_inv_det (GenRs.inv2_det (s * a) (s * b) (s * c) (s * d)))
+      = GenRs.inv2_r00 a b c d (GenRs.inv2_inv_det (GenRs.inv2_det a b c d)) / s := by
+  simp only [GenRs.inv2_det, GenRs.inv2_inv_det, GenRs.inv2_r00] at *
+  have hd : s * a * (s * d) - s * b * (s * c) = s * s * (a * d - b * c) := by ring
+  refine ⟨by rw [hd]; exact mul_ne_zero (mul_ne_zero hs hs) h, ?_⟩
+  rw [hd]; field_simp
+
+example : GenRs.inv2_det (2 : ℝ) 1 1 1 ≠ 0 := by norm_num [GenRs.inv2_det]
+
 end C20U
